@@ -374,6 +374,11 @@ impl TypeScript {
     ) -> io::Result<()> {
         // Only attempt to write a comment if there are some, otherwise we're Ok()
         if !comments.is_empty() {
+            // Doc text must not be able to close the block comment it is written into.
+            let comments = comments
+                .iter()
+                .map(|c| c.replace("*/", "*\\/"))
+                .collect::<Vec<String>>();
             let comment: String = {
                 let tab_indent = "\t".repeat(indent);
                 // If there's only one comment then keep it on the same line, otherwise we'll make a nice multi-line comment
